@@ -10,19 +10,24 @@ use ndarray::ShapeBuilder;
 // product over the whole batch), stated as the metamorphic relation of the property text: the
 // batch result equals, row by row and bit for bit, the result of predicting each row alone, for
 // the permuted batch and for a non-contiguous view of the same rows.  Nothing of the formula is
-// restated.  Fitted model: two symbolic finite coefficients and a symbolic finite intercept.
+// restated.  Fitted model: two symbolic coefficients and a symbolic intercept.
+// Values: symbolic integers in [-8,8] stored in f32 (every intermediate exact; measured: with
+// arbitrary finite f32 values the unit did not finish in 15 min).
 fn same(a: f32, b: f32) -> bool { a == b || (a.is_nan() && b.is_nan()) }
+fn small() -> f32 {
+    let i: i8 = kani::any();
+    kani::assume(i >= -8 && i <= 8);
+    i as f32
+}
 
-// @unit class=bounded tier=thorough mem=light bound="rows=2,features=2" timeout=900 fns=linfa_linear::ols::FittedLinearRegression::predict_inplace,linfa_linear::ols::FittedLinearRegression::default_target
+// @unit class=bounded tier=thorough mem=light bound="rows=2,features=2,values integer in [-8;8]" timeout=900 fns=linfa_linear::ols::FittedLinearRegression::predict_inplace,linfa_linear::ols::FittedLinearRegression::default_target
 #[kani::proof]
 #[kani::unwind(6)]
 #[kani::stub(alloc::fmt::format, fmt_stub)]
 fn c03_ols_rowwise_n2() {
-    let w: [f32; 2] = kani::any();
-    let c: f32 = kani::any();
-    let q: [[f32; 2]; 2] = kani::any();
-    kani::assume(w[0].is_finite() && w[1].is_finite() && c.is_finite());
-    kani::assume(q[0][0].is_finite() && q[0][1].is_finite() && q[1][0].is_finite() && q[1][1].is_finite());
+    let w: [f32; 2] = [small(), small()];
+    let c: f32 = small();
+    let q: [[f32; 2]; 2] = [[small(), small()], [small(), small()]];
     let m = FittedLinearRegression { intercept: c, params: Array1::from(vec![w[0], w[1]]) };
     // each row alone
     let a: Array1<f32> = m.predict(&Array2::from_shape_vec((1, 2), vec![q[0][0], q[0][1]]).unwrap());
